@@ -197,6 +197,40 @@ func (c *wctx) op(tok string) (pre string, panicMsg string) {
 	case "sort":
 		_, m := c.run("a.sort(function(x, y) { return x.Field - y.Field })")
 		return "", m
+	case "def":
+		_, m := c.run(fmt.Sprintf("Object.defineProperty(a, '%s', {value: {Field: %s}})", p[1], p[2]))
+		return "", m
+	case "reverse":
+		if c.isStruct {
+			return "", ""
+		}
+		_, m := c.run("a.reverse()")
+		return "", m
+	case "shift":
+		if c.isStruct {
+			return "", ""
+		}
+		v, m := c.run("a.shift()")
+		if m != "" {
+			return "", m
+		}
+		return c.observe(v), ""
+	case "unshift":
+		if c.isStruct {
+			return "", ""
+		}
+		_, m := c.run(fmt.Sprintf("a.unshift({Field: %s})", p[1]))
+		return "", m
+	case "splice":
+		if c.fixed || c.isStruct {
+			return "", ""
+		}
+		items := ""
+		for i := 0; i < atoi(p[3]); i++ {
+			items += fmt.Sprintf(", {Field: %d}", 900+i)
+		}
+		_, m := c.run(fmt.Sprintf("a.splice(%s, %s%s)", p[1], p[2], items))
+		return "", m
 	case "push":
 		_, m := c.run(fmt.Sprintf("a.push({Field: %s})", p[1]))
 		return "", m
@@ -1141,6 +1175,33 @@ func runP(f []string) string {
 	case "zooL":
 		vm.Set("a", &zoo.L)
 		goAppend = func() { zoo.L = append(zoo.L, Inner{7}, Inner{8}, Inner{9}) }
+	case "timeVal":
+		vm.Set("a", time.Unix(1700000000, 0).UTC())
+	case "bytes":
+		bs := []byte("hello")
+		vm.Set("a", &bs)
+	case "chanVal":
+		vm.Set("a", make(chan int, 1))
+	case "mapStrSlice":
+		vm.Set("a", map[string][]S{"0": {{1}, {2}}, "k": nil})
+	case "mixed":
+		vm.Set("a", &struct {
+			I  interface{}
+			E  error
+			F  func(int) int
+			B  *big.Int
+			T  time.Time
+			PP **S
+			A2 [2][2]int
+			MF map[float64]string
+			MM MM
+			St fmt.Stringer
+			Ch chan int
+			L  []interface{}
+		}{I: map[string]interface{}{"x": []interface{}{1}}, F: func(x int) int { return x }, B: big.NewInt(5), MF: map[float64]string{1.5: "x"}, MM: MM{"a": 1}, L: []interface{}{S{1}, &S{2}, nil}})
+	case "ptrptr":
+		s1 := &S{1}
+		vm.Set("a", &s1)
 	case "embNil":
 		vm.Set("a", &struct {
 			*Inner
@@ -1175,6 +1236,10 @@ func runP(f []string) string {
 		switch p[0] {
 		case "get":
 			src = "var t" + arg(1) + " = a[" + arg(1) + "]; t" + arg(1)
+		case "deep":
+			src = "var ks = Object.keys(a); for (var q = 0; q < ks.length; q++) { var v = a[ks[q]]; try { a[ks[q]] = v } catch (e) {} try { a[ks[q]] = " + []string{"1", "'s'", "null", "{}", "[1,2]", "undefined", "function(){}", "true"}[atoi(arg(1))%8] + " } catch (e) {} try { JSON.stringify(v); String(v); v + 1; Object.keys(v || {}) } catch (e) {} try { delete a[ks[q]] } catch (e) {} }"
+		case "tostr":
+			src = "try { String(a); a + ''; a.toString(); a.valueOf(); JSON.stringify(a); a.String && a.String() } catch (e) {}"
 		case "fld":
 			src = "a.A; a.Name; a.Inner; a.A = 1; a.Inner = {A: 2}; a.A; 'A' in a; Object.getOwnPropertyDescriptor(a, 'A')"
 		case "getf":
@@ -1972,7 +2037,8 @@ func runA(f []string) string {
 	variadic := f[0] == "1"
 	kt := map[string]reflect.Type{"int": reflect.TypeOf(int(0)), "int8": reflect.TypeOf(int8(0)), "int16": reflect.TypeOf(int16(0)),
 		"int32": reflect.TypeOf(int32(0)), "int64": reflect.TypeOf(int64(0)), "uint": reflect.TypeOf(uint(0)), "uint8": reflect.TypeOf(uint8(0)),
-		"uint16": reflect.TypeOf(uint16(0)), "uint32": reflect.TypeOf(uint32(0)), "uint64": reflect.TypeOf(uint64(0))}
+		"uint16": reflect.TypeOf(uint16(0)), "uint32": reflect.TypeOf(uint32(0)), "uint64": reflect.TypeOf(uint64(0)),
+		"bool": reflect.TypeOf(false), "float64": reflect.TypeOf(float64(0))}
 	var in []reflect.Type
 	for _, k := range strings.Split(f[1], ",") {
 		t, ok := kt[k]
@@ -1989,7 +2055,12 @@ func runA(f []string) string {
 		in[nargs-1] = reflect.SliceOf(in[nargs-1])
 	}
 	show := func(v reflect.Value) string {
-		if v.CanInt() {
+		switch {
+		case v.Kind() == reflect.Bool:
+			return strconv.FormatBool(v.Bool())
+		case v.Kind() == reflect.Float64:
+			return classify(v.Float())
+		case v.CanInt():
 			return strconv.FormatInt(v.Int(), 10)
 		}
 		return strconv.FormatUint(v.Uint(), 10)
